@@ -18,6 +18,7 @@ import (
 	"encoding/json"
 	"fmt"
 	"math"
+	"os"
 	"reflect"
 )
 
@@ -381,8 +382,19 @@ func (t *T) EvalAt(env Env, mode int, b *Bind) Res {
 	}
 	r := apply(t.Name, a, mode)
 	r.Unstable = r.Unstable || unstable
+	if debugNaN && (math.IsNaN(r.E) || math.IsInf(r.E, 0)) {
+		ok := true
+		for _, x := range a {
+			ok = ok && !math.IsNaN(x.E) && !math.IsInf(x.E, 0)
+		}
+		if ok {
+			fmt.Fprintf(os.Stderr, "TERM-NAN %s args=%+v -> %+v\n", t.Name, a, r)
+		}
+	}
 	return r
 }
+
+var debugNaN = os.Getenv("QV_DEBUG_NAN") != ""
 
 func abs(x float64) float64 { return math.Abs(x) }
 
@@ -405,7 +417,7 @@ func apply(f string, a []Res, mode int) Res {
 		if den <= 0 {
 			return Res{V: v, E: math.Inf(1), Unstable: true}
 		}
-		return Res{V: v, E: a[0].E/den + abs(a[0].V)*a[1].E/(den*den) + 2*u*abs(v)}
+		return Res{V: v, E: a[0].E/den + (abs(a[0].V)/den)*(a[1].E/den) + 2*u*abs(v)}
 	case "pow":
 		k := a[1].V
 		v := math.Pow(a[0].V, k)
